@@ -108,6 +108,13 @@ def gen_invocation(rnd, d: Path, i: int):
     if rnd.random() < 0.45:
         nodes.insert(rnd.randrange(1, len(nodes) + 1), {"processor": "TFailIf"})
     flag = rnd.choice(["none_"] * 5 + FLAGS[1:])
+    # a node that requires and re-creates the same key (in-place update): the key is required from outside
+    inplace = None
+    if want_blocker in ("none_", "missingKey") and rnd.random() < 0.35:
+        k = rnd.choice(["ipk1", "ipk2"])
+        spec = rnd.choice([{"processor": 'template:"{%s}_v2":%s' % (k, k)}, {"processor": f"rename:{k}:{k}x"}])
+        nodes.insert(rnd.randrange(1, len(nodes) + 1), spec)
+        inplace = k
     if want_blocker == "invalidConfig":
         k = rnd.randrange(len(nodes))
         how = rnd.choice(["bogus", "unknown-processor", "probe-no-key"])
@@ -117,10 +124,11 @@ def gen_invocation(rnd, d: Path, i: int):
             nodes[k] = {"processor": "NoSuchProcessorAnywhere"}
         else:
             nodes.insert(k + 1, {"processor": "TProbe"})
-    return nodes, flag, want_blocker
+    return nodes, flag, (want_blocker, inplace)
 
 
 def classify_and_run(rep, drv, rnd, d: Path, nodes, flag, want_blocker, stats, mism):
+    want_blocker, inplace = want_blocker
     # ---- reference analysis: accepted? required keys? ------------------------------------------------
     unknown_proc = any(n["processor"] == "NoSuchProcessorAnywhere" for n in nodes)
     accepted, required = False, []
@@ -149,7 +157,8 @@ def classify_and_run(rep, drv, rnd, d: Path, nodes, flag, want_blocker, stats, m
     if not real_accepted:
         blocker = "invalidConfig"
     elif want_blocker == "missingKey" and required:
-        drop = rnd.choice(required)
+        drop = inplace if (inplace in required and rnd.random() < 0.7) else rnd.choice(required)
+        stats["inplace_key_dropped"] = stats.get("inplace_key_dropped", 0) + (1 if drop == inplace else 0)
         if drop in ctxmap:
             del ctxmap[drop]
             if not ctxmap:
@@ -182,10 +191,19 @@ def classify_and_run(rep, drv, rnd, d: Path, nodes, flag, want_blocker, stats, m
         else:
             args += ["--run-space-max-runs", "10"]
     args += FLAG_ARGS[flag]
-    cfg = base_cfg(d, nodes, rs)
+    rs_in_file = rs is not None and rnd.random() < 0.35
+    if rs_in_file:
+        # the same run space given through --run-space-file (as a bare block or under a run_space: key)
+        (d / "rs_file.yaml").write_text(yaml.safe_dump(rs if rnd.random() < 0.5 else {"run_space": rs}, sort_keys=False))
+        args = ["--run-space-file", str(d / "rs_file.yaml")] + args
+        if rnd.random() < 0.5:
+            rnd.shuffle(args_groups := [args[:2], args[2:]])
+            args = args_groups[0] + args_groups[1]
+    cfg = base_cfg(d, nodes, None if rs_in_file else rs)
+    stats["run_space_file"] = stats.get("run_space_file", 0) + (1 if rs_in_file else 0)
     clean(d)
     o = invoke(d, cfg, args)
-    pub = {"nodes": nodes, "run_space": rs, "args": args, "blocker": blocker, "flag": flag, "required_keys": required}
+    pub = {"nodes": nodes, "run_space": rs, "run_space_via_file": rs_in_file, "args": args, "blocker": blocker, "flag": flag, "required_keys": required}
     stats["by_class"][f"{blocker}/{flag}"] = stats["by_class"].get(f"{blocker}/{flag}", 0) + 1
     executed = o["nodes_entered"] > 0
     side_effects = bool(o["sink"]) or bool(o["trace_files"])
